@@ -158,7 +158,7 @@ def project(name, cfgv, scope):
     return {"bumpver.toml": cfg.encode()}
 
 
-def run_state(st, name, pos, scope, ignore, placement, tags, order=None, kind="git", cfg_scope=None):
+def run_state(st, name, pos, scope, ignore, placement, tags, order=None, kind="git", cfg_scope=None, fetch_fault=False):
     """cfg_scope: when given, the CONFIG names that scope and `update` gets `--tag-scope <scope>` on the command line (which must win);
     `show` has no such option and must follow the config's scope."""
     P = PATTERNS[name]
@@ -177,10 +177,16 @@ def run_state(st, name, pos, scope, ignore, placement, tags, order=None, kind="g
     if cfg_scope:
         case["config_scope"] = cfg_scope
     flags = ["--no-fetch"] + (["--ignore-vcs-tag"] if ignore else [])
+    if fetch_fault:
+        # a remote exists, fetching is on and `git fetch` fails (offline): bumpver may give up, but it must not fall back to a start
+        # version that ignores the local tags
+        flags = ["--fetch"]
+        case["fetch_fails"] = True
     results = []
-    for cmd in ("show", "update") if not cfg_scope else ("update",):  # (`show` under the config's scope is what the plain run already does)
+    for cmd in ("show", "update") if not (cfg_scope or fetch_fault) else ("update",):  # (`show` under the config's scope is what the plain run already does)
         want = want_show if cmd == "show" else want_update
-        fake = fakevcs.install(fakevcs.FakeVCS(kind, tags_all=served_all, tags_merged=served_head, status=[]))
+        fake = fakevcs.install(fakevcs.FakeVCS(kind, tags_all=served_all, tags_merged=served_head, status=[],
+                                               **({"remote": "upstream", "fail": ("fetch", 0)} if fetch_fault else {})))
         try:
             if cmd == "show":
                 o = world.cli("show", *flags)
@@ -192,7 +198,11 @@ def run_state(st, name, pos, scope, ignore, placement, tags, order=None, kind="g
         st.transitions += 1
         results.append(o)
         kinds = sorted({classify_tag(name, t) for t in served_all})
-        ctx = f"{name}:{scope}" + (":ignore" if ignore else "") + (":hg" if kind == "hg" else "") + (":scope-on-command-line" if cfg_scope else "")
+        ctx = f"{name}:{scope}" + (":ignore" if ignore else "") + (":hg" if kind == "hg" else "") + (":scope-on-command-line" if cfg_scope else "") + (":fetch-failed" if fetch_fault else "")
+        if o.crashed and fetch_fault:
+            st.outcomes["update-refused:fetch-failed"] += 1  # giving up when the fetch fails is fine; going on without the tags is not
+            st.validated += 1
+            continue
         if o.crashed:
             st.outcomes["violation"] += 1
             culprit = _culprit(name, served_all)
@@ -228,7 +238,7 @@ def run_state(st, name, pos, scope, ignore, placement, tags, order=None, kind="g
                 st.outcomes["update-refused"] += 1
     want = want_update
     # an explicit --set-version that names an existing tag (on any branch) must be refused
-    if not ignore and order is None and not cfg_scope:
+    if not ignore and order is None and not cfg_scope and not fetch_fault:
         cands = [t for t in served_all if classify_tag(name, t) == "match" and all(bg.greater(t, w) for w in want)][:2]
         for t in cands:
             fake = fakevcs.install(fakevcs.FakeVCS(kind, tags_all=served_all, tags_merged=served_head, status=[]))
@@ -247,9 +257,9 @@ def run_state(st, name, pos, scope, ignore, placement, tags, order=None, kind="g
                 st.validated += 1
                 st.outcomes["set-version-of-existing-tag-refused"] += 1
     st.observe((case, [(o.exit, o.crashed, o.stdout, o.old_version, o.new_version) for o in results]))
-    st.state(name, pos, scope, ignore, placement, order, cfg_scope)
+    st.state(name, pos, scope, ignore, placement, order, cfg_scope, fetch_fault)
     if served_all:
-        st.nontriv(name, pos, scope, ignore, placement, order, cfg_scope)
+        st.nontriv(name, pos, scope, ignore, placement, order, cfg_scope, fetch_fault)
     return results
 
 
@@ -290,6 +300,8 @@ def run_chunk(chunk):
                         # the scope given on the command line while the config names another one (both other ones over the chunk)
                         others = [x for x in SCOPES if x != scope]
                         run_state(st, name, pos, scope, ignore, placement, tags, cfg_scope=others[h64(repr(placement)) % 2])
+                        if h64("ff", repr(placement)) % 3 == 0:
+                            run_state(st, name, pos, scope, ignore, placement, tags, fetch_fault=True)
         if first == ("head", "elsewhere") and pos == "between":
             st.sample({"pattern": PATTERNS[name]["pattern"], "tags": tags, "placement_example": list(first + ("absent",) * (n - 2)),
                        "tag_kinds": {t: classify_tag(name, t) for t in tags}})
@@ -409,5 +421,5 @@ def replay(case, st):
     tags = list(case["tags"])
     placement = tuple(case["tags"][t] for t in tags)
     pos = [k for k, v in PATTERNS[name]["configs"].items() if v == case["config"]][0]
-    run_state(st, name, pos, case["scope"], case["ignore_vcs_tag"], placement, tags, order=case.get("order"), cfg_scope=case.get("config_scope"))
+    run_state(st, name, pos, case["scope"], case["ignore_vcs_tag"], placement, tags, order=case.get("order"), cfg_scope=case.get("config_scope"), fetch_fault=bool(case.get("fetch_fails")))
     os.chdir("/")
